@@ -11,6 +11,10 @@
 (*   [k |-> "map",    key |-> K, e |-> T]                                  *)
 (*   [k |-> "struct", name |-> "S", pkg |-> "local"|"ext",                 *)
 (*                    fields |-> << [name |-> "A", t |-> T, emb |-> B] >>] *)
+(*     optional field  meth |-> "vv"|"pv"|"vp"|"pp"|"vi"|"pi": the struct  *)
+(*     declares its own Equal / Compare / Hash methods (receiver by value  *)
+(*     or pointer x argument by value, pointer or interface{}); the        *)
+(*     fixture methods look at the FIRST FIELD ONLY (see MStruct)          *)
 (*   [k |-> "self",   name |-> "S"]   the enclosing struct named S         *)
 (*                                     (recursion; only under ptr/slice/   *)
 (*                                     map value)                          *)
@@ -34,6 +38,12 @@ Embedded(name, t)   == [name |-> name, t |-> t, emb |-> TRUE]
 Struct(name, pkg, fields) == [k |-> "struct", name |-> name, pkg |-> pkg, fields |-> fields]
 Self(name)          == [k |-> "self", name |-> name]
 
+(* Fixture: a named struct with user-declared methods.  Its Equal / Compare *)
+(* / Hash consider the first field K only and ignore V -- deliberately     *)
+(* non-structural, so honouring vs ignoring the method is observable.      *)
+MethKinds == {"vv", "pv", "vp", "pp", "vi", "pi"}
+HasMeth(T) == T.k = "struct" /\ "meth" \in DOMAIN T
+
 TInt    == Basic("int")
 TString == Basic("string")
 
@@ -47,6 +57,9 @@ Bind(env, T) == [n \in DOMAIN env \cup {T.name} |-> IF n = T.name THEN T ELSE en
 
 -----------------------------------------------------------------------------
 (* Map key kinds of the universe (value keys).                             *)
+MStruct(mk) == [k |-> "struct", name |-> "M" \o mk, pkg |-> "local",
+                 fields |-> <<Field("K", TInt), Field("V", TInt)>>, meth |-> mk]
+
 KeyStruct == Struct("K", "local", <<Field("A", TInt), Field("B", TString)>>)
 NamedString == Named("NS", TString)
 KeyTypes == <<TInt, TString, NamedString, Array(TInt), KeyStruct>>
@@ -117,7 +130,9 @@ WF(T, names, under, inext) ==
     [] T.k = "map"    -> DOMAIN T = {"k", "key", "e"} /\ IsKeyType(T.key) /\ WF(T.e, names, TRUE, inext)
                          /\ (inext => T.key # KeyStruct)
     [] T.k = "struct" ->
-         /\ DOMAIN T = {"k", "name", "pkg", "fields"}
+         /\ \/ DOMAIN T = {"k", "name", "pkg", "fields"}
+            \/ /\ DOMAIN T = {"k", "name", "pkg", "fields", "meth"} /\ T.meth \in MethKinds
+               /\ T.fields = <<Field("K", TInt), Field("V", TInt)>>
          /\ T.pkg \in {"local", "ext"} /\ (inext => T.pkg = "ext")
          /\ T.name \notin names /\ Len(T.name) > 0 /\ SubSeq(T.name, 1, 1) \in UpperCase
          /\ Len(T.fields) \in 1..4
@@ -127,6 +142,7 @@ WF(T, names, under, inext) ==
               /\ Len(f.name) > 0
               /\ \A j \in DOMAIN T.fields : j # i => T.fields[j].name # f.name
               /\ WF(f.t, names \cup {T.name}, FALSE, T.pkg = "ext")
+              /\ f.emb => ~HasMeth(f.t)       \* embedding would promote the methods to the outer struct
               /\ f.emb => (f.t.k \in {"named", "struct"} /\ f.name = (IF f.t.k = "named" THEN f.t.n ELSE f.t.name))
     [] OTHER -> FALSE
 
@@ -141,7 +157,14 @@ StructDefs(T) ==
 
 NamesUnique(T) == \A a, b \in StructDefs(T) : a.name = b.name => a = b
 
-WellFormed(T) == WF(T, {}, FALSE, FALSE) /\ NamesUnique(T)
+(* A method-bearing struct is a COMPONENT: at top level (or behind top-     *)
+(* level pointers) deriveEqual on pointers to M is what the user method     *)
+(* itself calls and is structural by necessity; the statement speaks of     *)
+(* components.                                                              *)
+RECURSIVE PtrChainToMeth(_)
+PtrChainToMeth(T) == HasMeth(T) \/ (T.k = "ptr" /\ PtrChainToMeth(T.e))
+
+WellFormed(T) == WF(T, {}, FALSE, FALSE) /\ NamesUnique(T) /\ ~PtrChainToMeth(T)
 
 -----------------------------------------------------------------------------
 (* Enumeration of all type terms of constructor depth <= d.                *)
@@ -216,6 +239,16 @@ TypesUpTo(d) ==
   IF d = 0 THEN Leaves
   ELSE TypesUpTo(d - 1) \cup ConsOver(TypesUpTo(d - 1)) \cup Pairs(Layer(d - 1))
        \cup (IF d = 1 THEN RecStructs ELSE {})
+
+(* Types with a method-bearing component: every one-level context over M   *)
+(* and *M for every method kind, plus a second level of unary contexts.     *)
+MethComponents == {MStruct(mk) : mk \in MethKinds} \cup {Ptr(MStruct(mk)) : mk \in MethKinds}
+NoEmbMeth(T) == ~\E X \in Nodes(T) : X.k = "struct" /\ \E i \in DOMAIN X.fields : X.fields[i].emb /\ HasMeth(X.fields[i].t)
+MethLayer1 == {T \in ConsOver(MethComponents) : NoEmbMeth(T) /\ ~PtrChainToMeth(T)}
+MethTypes(d) ==
+  IF d <= 1 THEN MethLayer1
+  ELSE MethLayer1 \cup {Ptr(t) : t \in MethLayer1} \cup {Slice(t) : t \in MethLayer1}
+       \cup {Struct(SNameOver(t), "local", <<Field("A", TInt), Field("b", t)>>) : t \in MethLayer1}
 
 (* short, name-free rendering of the type AT a position (failure classes)  *)
 RECURSIVE TStr(_)
